@@ -72,6 +72,10 @@ def random_instance(rng, max_customers=4):
         arcs = [a for a in arcs if a[0] != victim]
     if rng.random() < 0.15:
         arcs.insert(rng.randint(0, len(arcs)), ("D", "D", rng.randint(0, 2), cost()))   # depot self-arc
+    if rng.random() < 0.12:
+        # every leg touching the depot is free while the customer-to-customer legs are not: the linear part of the sequence
+        # objective is then all zero although its quadratic part is not
+        arcs = [(o, d, t, 0 if "D" in (o, d) else (c if c != 0 else scale)) for (o, d, t, c) in arcs]
     rng.shuffle(arcs)
 
     # time grid of the arc model: 1-4 distinct integer points, given unsorted
